@@ -696,14 +696,64 @@ Proof.
   - exfalso. destruct ((f_role r mod 2 =? 1) && (floor <? f_mq r)); [discriminate|].
     unfold lock_free in LF. rewrite !andb_true_iff in LF. destruct LF as [[[[L1 L2] L3] L4] L5].
     apply Z.eqb_eq in L1, L2, L4, L5. apply Z.ltb_lt in L3.
-    injection Hs as _ Ow. rewrite E1 in Ow. unfold lock_ib in Ow.
-    destruct ((f_pb r =? 1) || (f_wq r + W - 1 <? 4096)); lia.
-  - injection Hs as <-.
+    assert (Ow : forall a b c d, Commit a b = Commit c d -> b = d) by (intros; congruence). apply Ow in Hs. clear Ow.
+    rewrite E1 in Hs. unfold lock_ib in Hs. destruct ((f_pb r =? 1) || (f_wq r + W - 1 <? 4096)); lia.
+  - assert (Nw : forall a b c d, Commit a b = Commit c d -> a = c) by (intros; congruence). apply Nw in Hs. clear Nw. subst new.
     set (r' := mk (f_owner r) (f_tr r) (1 - f_enq r) (f_mq r) (f_ov r) (f_role r) (f_em r) (f_d r) (f_pb r) (f_wq r) (f_ib r) (f_hi r)).
     assert (Wn : wfr r') by (subst r'; wf_mk).
     split; [|intros s2 E2; rewrite (dirty_st s2 r' E2 Wn); reflexivity].
     destruct (lockh s) as [o|] eqn:L; [left; discriminate|right]. destruct (DN eq_refl) as [Dw0 Bm0].
     rewrite Bm0 in Hib. rewrite Dw0 in Hwq. unfold lock_free in LF. rewrite Hown, Hem, Hib, Hhi in LF. cbn [Z.eqb andb] in LF.
-    rewrite andb_true_r in LF. apply Z.ltb_ge in LF.
+    rewrite ?andb_true_r in LF. apply Z.ltb_ge in LF.
     assert (f_pb r = 0 \/ f_pb r = 1) as [P|P] by lia; rewrite P in Hwq; lia.
+Qed.
+
+(* the drainer finds no room for the sync waiter at the head only when readers are in flight *)
+Lemma no_room_U W s t op : Inv W s -> pcs s t = W_head op 0 ->
+  nz (f_dq_state_has_sync_width_room (st s) W) = false -> 1 <= U s.
+Proof.
+  intros HI Hpc Hr. inv_pc HI t Hpc. destruct Hi as (_ & Hi).
+  pose proof HI as (HW & (r & G) & T). pose proof (g_wf _ _ _ G) as Wf. pose proof Wf as Wf'. unfold wfr in Wf'.
+  pose proof (g_wq _ _ _ G) as Hwq. pose proof (g_ib _ _ _ G) as Hib. pose proof (g_hi _ _ _ G) as Hhi.
+  pose proof (CLane_proofs.U_nonneg s) as Un. pose proof (g_dw _ _ _ G) as [D0 _].
+  rewrite (g_enc _ _ _ G), has_room_f in Hr by (assumption || lia).
+  destruct Hi as [(_ & X)|(Bm & Dw & _)]; [unfold IN_BARRIER in X; discriminate|].
+  rewrite Bm in Hib. rewrite Hhi, Hib in Hr. cbn [Z.eqb andb] in Hr. apply Z.ltb_ge in Hr.
+  assert (Dw0 : dw s = 0) by (unfold INTERVAL in Dw; lia). rewrite Dw0 in Hwq.
+  assert (f_pb r = 0 \/ f_pb r = 1) as [P|P] by lia; rewrite P in Hwq; lia.
+Qed.
+
+(* _dispatch_queue_try_upgrade_full_width fails only when readers are in flight *)
+Lemma W_upg_fail W s t op owned new ret : Inv W s -> pcs s t = W_upg op owned ->
+  f_dispatch_queue_try_upgrade_full_width 0 owned W (st s) = Commit new ret -> nz ret = false -> 1 <= U s.
+Proof.
+  intros HI Hpc Hs Hr. inv_pc HI t Hpc. destruct Hi as (E & Bm & Ow & Pd & Hb).
+  pose proof HI as (HW & (r & G) & T). pose proof (g_wf _ _ _ G) as Wf. pose proof Wf as Wf'. unfold wfr in Wf'.
+  pose proof (dw_range W s r G) as Dr. rewrite (pb_of W s r G) in Pd.
+  pose proof (g_wq _ _ _ G) as Hwq. pose proof (CLane_proofs.U_nonneg s) as Un. pose proof (g_bound _ _ _ G) as Hbd.
+  pose proof (g_ib _ _ _ G) as Hib. rewrite Bm in Hib. pose proof (g_hi _ _ _ G) as Hhi.
+  assert (Uq : upg_wq r (dw s) W = 4095 + U s).
+  { unfold upg_wq. destruct (Z.eqb_spec (f_pb r) 1) as [P|P].
+    - rewrite P in Hwq. rewrite (Pd P) in *. lia.
+    - assert (P0 : f_pb r = 0) by lia. rewrite P0 in Hwq. lia. }
+  rewrite (g_enc _ _ _ G) in Hs. subst owned. unfold INTERVAL in Hs.
+  rewrite upgrade_fields in Hs by (assumption || lia). rewrite Uq in Hs.
+  assert (Rt : forall a b c d, Commit a b = Commit c d -> b = d) by (intros; congruence). apply Rt in Hs. subst ret.
+  destruct (Z.ltb_spec (4095 + U s) 4096); [discriminate|lia].
+Qed.
+
+(* the drainer cannot get width for the head item only when DIRTY is set or readers are in flight *)
+Lemma W_acq_fail W s t op ret ex : Inv W s -> pcs s t = W_acq op ->
+  f_dispatch_queue_try_acquire_async 0 (st s) = NoCommit ret ex -> dirty s = 1 \/ 1 <= U s.
+Proof.
+  intros HI Hpc Hs. inv_pc HI t Hpc. destruct Hi as (_ & Bm & Dw & P0 & _).
+  pose proof HI as (HW & (r & G) & T). pose proof (g_wf _ _ _ G) as Wf. pose proof Wf as Wf'. unfold wfr in Wf'.
+  rewrite (pb_of W s r G) in P0. pose proof (g_wq _ _ _ G) as Hwq. rewrite Dw, P0 in Hwq.
+  pose proof (g_ib _ _ _ G) as Hib. rewrite Bm in Hib. pose proof (g_hi _ _ _ G) as Hhi.
+  rewrite (dirty_st s r (g_enc _ _ _ G) Wf).
+  rewrite (g_enc _ _ _ G), acquire_async_fields in Hs by exact Wf.
+  destruct (async_ok r) eqn:A; [discriminate|]. unfold async_ok in A. rewrite Hhi, Hib, P0 in A. cbn [Z.eqb andb negb] in A.
+  rewrite andb_true_r in A. apply andb_false_iff in A. destruct A as [A|A].
+  - apply Z.ltb_ge in A. right. lia.
+  - apply negb_false_iff, Z.eqb_eq in A. left. exact A.
 Qed.
